@@ -209,7 +209,15 @@ def agg_rows(prog, db, ag, env):
     return res
 
 
+class Budget:
+    steps = 0
+    limit = 3_000_000
+
+
 def solve(prog, db, items, i, env):
+    Budget.steps += 1
+    if Budget.steps > Budget.limit:
+        raise RefError('evaluation budget exceeded (%d steps): case too expensive for the naive reference' % Budget.limit)
     if i == len(items):
         yield env
         return
@@ -278,6 +286,7 @@ def evaluate(prog, inputs, max_passes=10000):
     """inputs: dict rel -> list of tuples. Returns (db, trace)."""
     db = new_db(prog)
     trace = Trace()
+    Budget.steps = 0
     for rel in prog.rels:
         if rel.init:
             for t in rel.init:
